@@ -48,6 +48,18 @@ def grid():
                         out.append({"cfg": {"buf": buf, "rate": r0, "ch": 2, "cap": 2}, "src": "grid-effect-rate", "steps": [
                             {"act": "add_track", "p": [k, l, 2, 0, 0, 0, 0]}, snd(2, 1, 1), {"act": "cb", "p": [3]}, {"act": "cb", "p": [2]},
                             {"act": "rate", "p": [r1]}, {"act": "cb", "p": [3]}, {"act": "cb", "p": [1]}, {"act": "cb", "p": [3]}]})
+    # D. every effect on a plain track that is the child of a spatial track (a creation path of its own), with audio running
+    for k in list(range(1, 9)) + [9, 10, 11]:
+        for l in range(6):
+            out.append({"cfg": {"buf": 2, "rate": 1, "ch": 2, "cap": 2}, "src": "grid-effect-under-spatial", "steps": [
+                {"act": "add_listener", "p": [0]}, {"act": "add_spatial", "p": [1, 0, 0, 0]}, {"act": "add_track", "p": [k, l, 2, 0, 0, 0, 2]},
+                snd(2, 1, 1), {"act": "cb", "p": [3]}, {"act": "cb", "p": [2]}, {"act": "rate", "p": [2]}, {"act": "cb", "p": [3]}, {"act": "cb", "p": [1]}]})
+    # E. start times "practically never": a sound, a resume of a sound and of a track delayed by Duration::MAX
+    for prelude, act, c in (([snd(2, 1, 0)], "snd_cmd", 9), ([{"act": "add_track", "p": [0, 0, 2, 0, 0, 0, 0]}, snd(2, 1, 1)], "trk_cmd", 3)):
+        out.append({"cfg": {"buf": 2, "rate": 1, "ch": 2, "cap": 2}, "src": "grid-never", "steps": prelude + [
+            {"act": "cb", "p": [3]}, {"act": act, "p": [0, 0, 0]}, {"act": "cb", "p": [3]}, {"act": act, "p": [c, 5, 0]}, {"act": "cb", "p": [3]}, {"act": "cb", "p": [2]}]})
+    out.append({"cfg": {"buf": 2, "rate": 1, "ch": 2, "cap": 2}, "src": "grid-never", "steps": [
+        {"act": "add_static", "p": [4, 0, 0, 0, 2, 2, 1, 4, 0, 0, 0]}, {"act": "cb", "p": [3]}, {"act": "cb", "p": [2]}, {"act": "cb", "p": [3]}]})
     # C. every handle command x every level of its argument alphabet x two tween lengths, on an object through which audio is
     #    running (the random walk issues most commands to objects that are silent, finished or not yet picked up)
     def cmds(prelude, act, nc, nl):
